@@ -51,19 +51,54 @@ class L:
 NONE = ('none',)
 X = ('x',)
 K = ('K',)
+K2 = ('K2',)               # a second event type, registered (if at all) before K: iteration over the map meets it first
 OTHER = ('other',)         # some other object (another key, another listener): equal to nothing tracked
+
+
+class _Break(Exception):
+    pass
+
+
+class _Continue(Exception):
+    pass
 
 
 class Interp:
     def __init__(self, prog, cls, F, key_param, lis_param, has_key, lst, memo_fields=()):
         self.prog, self.cls, self.F = prog, cls, F
         self.kp, self.lp = key_param, lis_param
-        self.has = has_key
-        self.lst = lst                       # the list registered under K (L) or None
+        self.m = {K: [has_key, lst], K2: [False, None]}      # key -> [the map has the key, the list registered under it (L) or None]
         if lst is not None:
             lst.registered = True
         self.memo = set(memo_fields)
         self.depth = 0
+
+    # the single-key view used by the add / remove contracts
+    @property
+    def has(self):
+        return self.m[K][0]
+
+    @property
+    def lst(self):
+        return self.m[K][1]
+
+    def set_second(self, has_key, lst):
+        self.m[K2] = [has_key, lst]
+        if lst is not None:
+            lst.registered = True
+
+    def _key(self, k, what):
+        if k in (K, K2):
+            return k
+        raise Unsupported(f'{what} another key')
+
+    def _drop(self, k):
+        if self.m[k][1] is not None:
+            self.m[k][1].registered = False
+        self.m[k] = [False, None]
+
+    def _present(self):
+        return [k for k in (K2, K) if self.m[k][0]]
 
     # ------------------------------------------------------------------ statements
     def run(self, fn, args=None):
@@ -128,6 +163,31 @@ class Interp:
             return
         if isinstance(st, ast.Assert):
             return
+        if isinstance(st, ast.Break):
+            raise _Break()
+        if isinstance(st, ast.Continue):
+            raise _Continue()
+        if isinstance(st, ast.For) and not st.orelse:
+            it = self.ev(st.iter, env)
+            live = False
+            if it in (('dict',), ('keys',)):
+                it, live = ('keyseq', self._present()), True
+            elif it == ('items',):
+                it, live = ('itemseq', [(k, self.m[k][1]) for k in self._present()]), True
+            if not (isinstance(it, tuple) and it[0] in ('keyseq', 'itemseq')):
+                raise Unsupported('loop over something else than the keys / items of the map')
+            for el in it[1]:
+                before = self._present()
+                self.assign(st.target, el if it[0] == 'keyseq' else ('tuple', list(el)), env)
+                try:
+                    self.block(st.body, env)
+                except _Continue:
+                    pass
+                except _Break:
+                    break
+                if live and self._present() != before:
+                    raise _Raise('RuntimeError')          # dictionary changed size during iteration
+            return
         raise Unsupported(f'{type(st).__name__} statement')
 
     def assign(self, t, v, env):
@@ -141,15 +201,18 @@ class Interp:
                 self.assign(a, b, env)
             return
         if isinstance(t, ast.Subscript) and is_self_attr(t.value, self.F):
-            k = self.ev(t.slice, env)
-            if k != K:
-                raise Unsupported('store under another key')
+            k = self._key(self.ev(t.slice, env), 'store under')
             if not isinstance(v, L):
                 raise Unsupported('a non-list stored in the map')
-            if self.lst is not None:
-                self.lst.registered = False
-            self.has, self.lst = True, v
+            self._drop(k)
+            self.m[k] = [True, v]
             v.registered = True
+            return
+        if is_self_attr(t, self.F):
+            if v != ('newdict',):
+                raise Unsupported('the map is re-bound to something else than an empty dict')
+            self._drop(K)
+            self._drop(K2)
             return
         if isinstance(t, ast.Subscript) and is_self_attr(t.value) and t.value.attr in self.memo:
             return
@@ -161,13 +224,10 @@ class Interp:
         if isinstance(t, ast.Subscript):
             base = self.ev(t.value, env)
             if base == ('dict',):
-                k = self.ev(t.slice, env)
-                if k != K:
-                    raise Unsupported('delete of another key')
-                if not self.has:
+                k = self._key(self.ev(t.slice, env), 'delete of')
+                if not self.m[k][0]:
                     raise _Raise('KeyError')
-                self.lst.registered = False
-                self.has, self.lst = False, None
+                self._drop(k)
                 return
             if isinstance(base, L):
                 i = self.ev(t.slice, env)
@@ -199,8 +259,10 @@ class Interp:
             return v[1] != 0
         if v == ('idx', 'x'):
             raise Unsupported('truth of a position')
-        if v in (X, K, OTHER, ('dict',)):
+        if v in (X, K, K2, OTHER):
             return True
+        if v == ('dict',):
+            return bool(self._present())
         raise Unsupported(f'truth of {v}')
 
     def ev(self, e, env):
@@ -226,6 +288,8 @@ class Interp:
             return OTHER
         if isinstance(e, ast.Tuple):
             return ('tuple', [self.ev(x, env) for x in e.elts])
+        if isinstance(e, ast.Dict) and not e.keys:
+            return ('newdict',)
         if isinstance(e, ast.List):
             if not e.elts:
                 return L()
@@ -253,12 +317,10 @@ class Interp:
         if isinstance(e, ast.Subscript):
             base = self.ev(e.value, env)
             if base == ('dict',):
-                k = self.ev(e.slice, env)
-                if k != K:
-                    raise Unsupported('lookup of another key')
-                if not self.has:
+                k = self._key(self.ev(e.slice, env), 'lookup of')
+                if not self.m[k][0]:
                     raise _Raise('KeyError')
-                return self.lst
+                return self.m[k][1]
             if isinstance(base, tuple) and base[0] == 'tuple' and isinstance(e.slice, ast.Constant) and isinstance(e.slice.value, int):
                 return base[1][e.slice.value]
             if isinstance(base, L) and isinstance(e.slice, ast.Slice) and e.slice.lower is None and e.slice.upper is None and e.slice.step is None:
@@ -292,9 +354,7 @@ class Interp:
         a, b = self.ev(e.left, env), self.ev(e.comparators[0], env)
         if isinstance(op, (ast.In, ast.NotIn)):
             if b == ('dict',) or b == ('keys',):
-                if a != K:
-                    raise Unsupported('membership of another key')
-                r = self.has
+                r = self.m[self._key(a, 'membership of')][0]
             elif isinstance(b, L):
                 if a != X:
                     raise Unsupported('membership of another listener')
@@ -375,7 +435,8 @@ class Interp:
         f = e.func
         ft = unparse(f)
         if ft == 'isinstance':
-            return ('bool', True)                  # the arguments of the analysed call are of the documented types
+            # the arguments of the analysed call are of the documented types -- or None where the method allows it
+            return ('bool', not (e.args and self.ev(e.args[0], env) == NONE))
         if ft == 'len' and len(e.args) == 1:
             v = self.ev(e.args[0], env)
             if isinstance(v, L):
@@ -385,7 +446,15 @@ class Interp:
             v = self.ev(e.args[0], env)
             if isinstance(v, L):
                 return v.copy()
+            if v in (('dict',), ('keys',)):
+                return ('keyseq', self._present())                   # a snapshot of the keys, in registration order
+            if v == ('items',):
+                return ('itemseq', [(k, self.m[k][1]) for k in self._present()])
+            if isinstance(v, tuple) and v and v[0] in ('keyseq', 'itemseq'):
+                return v
             raise Unsupported('list() of something else')
+        if ft == 'dict' and not e.args and not e.keywords:
+            return ('newdict',)
         if ft in ('logger.debug', 'logger.info', 'logger.warning', 'print'):
             return NONE
         if isinstance(f, ast.Attribute):
@@ -424,26 +493,33 @@ class Interp:
             rv = self.ev(recv, env)
             args = [self.ev(a, env) for a in e.args]
             if rv == ('dict',):
-                if m == 'get' and args and args[0] == K:
-                    if self.has:
-                        return self.lst
+                if m == 'get' and args and args[0] in (K, K2):
+                    if self.m[args[0]][0]:
+                        return self.m[args[0]][1]
                     return args[1] if len(args) > 1 else NONE
-                if m == 'setdefault' and len(args) == 2 and args[0] == K and isinstance(args[1], L):
-                    if not self.has:
-                        self.has, self.lst = True, args[1]
+                if m == 'setdefault' and len(args) == 2 and args[0] in (K, K2) and isinstance(args[1], L):
+                    if not self.m[args[0]][0]:
+                        self.m[args[0]] = [True, args[1]]
                         args[1].registered = True
-                    return self.lst
-                if m == 'pop' and args and args[0] == K:
-                    if not self.has:
+                    return self.m[args[0]][1]
+                if m == 'pop' and args and args[0] in (K, K2):
+                    if not self.m[args[0]][0]:
                         if len(args) > 1:
                             return args[1]
                         raise _Raise('KeyError')
-                    v = self.lst
-                    v.registered = False
-                    self.has, self.lst = False, None
+                    v = self.m[args[0]][1]
+                    self._drop(args[0])
                     return v
                 if m == 'keys' and not args:
                     return ('keys',)
+                if m == 'items' and not args:
+                    return ('items',)
+                if m == 'copy' and not args:
+                    return ('keyseq', self._present())
+                if m == 'clear' and not args:
+                    self._drop(K)
+                    self._drop(K2)
+                    return NONE
                 raise Unsupported(f'map operation .{m}')
             if rv == ('memo',):
                 if m in ('pop', 'clear', 'get'):
@@ -534,4 +610,73 @@ def check_method(prog, cls, F, fn, kind, memo_fields=()):
                     problems.append((desc, 'the other listeners lose their list'))
                 elif after[0] != 0 or after[1] != '1+':
                     problems.append((desc, f'afterwards the list is {it.lst}; required: the others only'))
+    return problems, None
+
+
+def _remove_expectation(before_has, before):
+    """what un-subscribing x must leave of one key: (has key, list key) ; `before` = L.key() or None"""
+    if not before_has or before is None or before[0] == 0:
+        return 'unchanged'
+    if before[1] == '0':
+        return 'gone'
+    return 'others'
+
+
+def check_remove_all(prog, cls, F, fn, memo_fields=()):
+    """remove_all_listeners(event_type, listener) over two event types K2 (registered first), K and one listener x, for the four documented
+    forms and every combination of the six single-key cases.  -> ([(form, case description, what is wrong)], None) or (None, reason)."""
+    pe, pl = fn.args.args[1].arg, fn.args.args[2].arg
+    problems = []
+    forms = [('event_type None, listener None', NONE, NONE), ('event_type None, listener given', NONE, X),
+             ('event_type given, listener None', K, NONE), ('event_type given, listener given', K, X)]
+    for (fdesc, ev, lv) in forms:
+        for i2 in range(6):
+            for i1 in range(6):
+                (d2, has2, l2), (d1, has1, l1) = initial_cases()[i2], initial_cases()[i1]
+                b1 = l1.key() if l1 is not None else None
+                b2 = l2.key() if l2 is not None else None
+                it = Interp(prog, cls, F, None, None, has1, l1, memo_fields)
+                it.set_second(has2, l2)
+                try:
+                    try:
+                        it.block(body_of(fn), {pe: ev, pl: lv})
+                    except _Return:
+                        pass
+                except _Raise as e:
+                    problems.append((fdesc, f'an earlier event type: {d2}; a later one: {d1}', f'{e.kind} escapes'))
+                    continue
+                except (_Break, _Continue):
+                    return None, 'break / continue outside a loop'
+                except Unsupported as e:
+                    return None, str(e)
+                except RecursionError:
+                    return None, 'recursion'
+                for (kname, key, bh, b, lst0) in (('the earlier event type', K2, has2, b2, l2), ('the later event type', K, has1, b1, l1)):
+                    ah, al = it.m[key]
+                    a = al.key() if ah and al is not None else None
+                    if ev == NONE and lv == NONE:
+                        want = 'gone' if bh else 'unchanged'
+                    elif lv == NONE:
+                        want = ('gone' if bh else 'unchanged') if key == K else 'unchanged'
+                    elif ev == NONE or key == K:
+                        want = _remove_expectation(bh, b)
+                    else:
+                        want = 'unchanged'
+                    bad = None
+                    if want == 'unchanged':
+                        if ah != bh or a != b or (bh and al is not lst0):
+                            bad = f'{kname} must be left alone but is changed: has list {ah}, {al}'
+                    elif want == 'gone':
+                        if ah:
+                            bad = (f'{kname} keeps an empty list (has_listeners() stays true)' if a is not None and a[0] == 0 and a[1] == '0'
+                                   else f'{kname} still has its list afterwards: {al}' + (' -- the listener stays subscribed there' if a is not None and a[0] >= 1 else ''))
+                    else:
+                        if not ah or a is None:
+                            bad = f'the other listeners of {kname} lose their list'
+                        elif a[0] != 0:
+                            bad = f'the listener is still subscribed under {kname}: {al}'
+                        elif a[1] != '1+':
+                            bad = f'the other listeners of {kname} are gone: {al}'
+                    if bad:
+                        problems.append((fdesc, f'an earlier event type: {d2}; a later one: {d1}', bad))
     return problems, None
